@@ -7,7 +7,7 @@
       dex/farm/src/lib.rs, dex/farm-with-locked-rewards/src/lib.rs
                                                       calculateRewardsForGivenPosition (+ require_queried: the storage
                                                       cache it settles is dropped with the query)
-      farm-staking/farm-staking/src/lib.rs            calculateRewardsForGivenPosition (caller = the zero address)
+      farm-staking/farm-staking/src/lib.rs            calculateRewardsForGivenPosition (user = optional argument, else original_owner)
       farm-staking/farm-staking/src/base_impl_wrapper.rs   calculate_base_farm_rewards
       locked-asset/energy-factory/src/unlock_with_penalty.rs  getPenaltyAmount
       dex/price-discovery/src/phase.rs, lib.rs        getCurrentPhase, getCurrentPrice
@@ -98,24 +98,29 @@ Definition base_rewards (s : stk) (amount arps : Z) : result Z :=
 
 Definition query_cache (s : stk) (blk : Z) : result stk := settle s blk.
 
-(** calculate_boosted_rewards(sc, &ManagedAddress::zero()): the zero address holds no position and has
-    no claim progress, so the weekly splitting pays it nothing *)
-Definition boosted_of_nobody : Z := 0.
+(** the user whose boosted rewards the view adds: the optional argument, else the position's recorded
+    original owner (attributes.original_owner) *)
+Definition view_user (owner : Z) (opt_user : option Z) : Z :=
+  match opt_user with Some u => u | None => owner end.
 
-(** calculateRewardsForGivenPosition(farm_token_amount, attributes) queried at block [blk]; of the
-    attributes only reward_per_share is read *)
-Definition calc_rewards (s : stk) (blk amount arps : Z) : result Z :=
+(** calculateRewardsForGivenPosition(farm_token_amount, attributes, opt_user) queried at block [blk];
+    of the attributes reward_per_share [arps] and original_owner [owner] are read.
+    FarmStakingWrapper::calculate_rewards = calculate_base_farm_rewards + calculate_boosted_rewards(user);
+    as in Model/Staking.v and Model/Farm.v the boosted amount the weekly splitting computes for a user in
+    this state is an input: [bo u] for user [u] (the same function, on the same storage, that
+    claimRewards calls for its caller).  Nothing is assumed about its values. *)
+Definition calc_rewards (s : stk) (blk amount arps owner : Z) (opt_user : option Z) (bo : Z -> Z) : result Z :=
   do s1 <- query_cache s blk;
   do base <- base_rewards s1 amount arps;
-  Ok (base + boosted_of_nobody).
+  Ok (base + bo (view_user owner opt_user)).
 
-(** claimRewards on a position (amount [x], reward_per_share [arps]) by a caller whose pending boosted
-    rewards are [b]: Model/Staking.v takes the paid reward as an input; here it is tied to what
-    FarmStakingWrapper::calculate_rewards computes: base(position) + boosted(caller). *)
-Definition claim (s : stk) (blk ep c x arps b : Z) : result (stk * souts) :=
+(** claimRewards by caller [c] on a position (amount [x], reward_per_share [arps]): Model/Staking.v takes
+    the paid reward as an input; here it is tied to what FarmStakingWrapper::calculate_rewards computes:
+    base(position) + boosted(caller). *)
+Definition claim (s : stk) (blk ep c x arps : Z) (bo : Z -> Z) : result (stk * souts) :=
   do s1 <- settle s blk;
   do base <- base_rewards s1 x arps;
-  sstep s (SClaim blk ep c x (base + b) b).
+  sstep s (SClaim blk ep c x (base + bo c) (bo c)).
 
 End QStk.
 
